@@ -142,6 +142,9 @@ pub struct EscCase {
 fn render(c: &EscCase, html: bool) -> Result<String, String> {
     let mut env = Environment::new();
     env.set_fuel(Some(50_000));
+    // the contrib filters / globals and the Python-style string methods are paths of their own
+    minijinja_contrib::add_to_environment(&mut env);
+    env.set_unknown_method_callback(minijinja_contrib::pycompat::unknown_method_callback);
     let rename = |n: &str| if html { n.to_string() } else { n.replace(".html", ".txt").replace(".xml", ".txt") };
     for (n, s) in &c.companions {
         let s = if html { s.clone() } else { s.replace(".html", ".txt").replace(".xml", ".txt") };
@@ -213,6 +216,22 @@ fn flow_source() -> BoxedStrategy<String> {
             1 => inner.clone().prop_map(|a| format!("dict(k={a}).k")),
             1 => inner.clone().prop_map(|a| format!("namespace(k={a}).k")),
             1 => inner.clone().prop_map(|a| format!("({a})|attr('nothere')|default({a})")),
+            // contrib filters, with tainted and captured values in every argument position
+            1 => (inner.clone(), inner.clone(), 1..12u32).prop_map(|(a, b, w)| format!("({a})|wordwrap(width={w}, wrapstring={b})")),
+            1 => (inner.clone(), 1..9u32).prop_map(|(a, w)| format!("({a} ~ ' ' ~ {a})|wordwrap({w}, break_long_words=false)")),
+            1 => (inner.clone(), inner.clone(), 1..9u32).prop_map(|(a, b, w)| format!("({a})|truncate(length={w}, end={b})")),
+            1 => (inner.clone(), inner.clone(), 1..9u32).prop_map(|(a, b, w)| format!("({a})|truncate({w}, true, {b}, 0)")),
+            1 => (inner.clone(), inner.clone()).prop_map(|(a, b)| format!("2|pluralize({a}, {b}) ~ 1|pluralize({a}, {b})")),
+            1 => inner.clone().prop_map(|a| format!("({a})|striptags")),
+            1 => inner.clone().prop_map(|a| format!("({a})|wordcount|string ~ ({a})|length|filesizeformat")),
+            1 => (inner.clone(), inner.clone()).prop_map(|(a, b)| format!("joiner({a})() ~ cycler({a}, {b}).next()")),
+            // Python-style string methods (pycompat)
+            1 => (inner.clone(), crate::runner::one_of(&["upper()", "lower()", "strip()", "title()", "capitalize()", "lstrip('<')", "rstrip()", "swapcase()" ]))
+                .prop_map(|(a, f)| format!("({a}|string).{f}")),
+            1 => (inner.clone(), inner.clone(), inner.clone()).prop_map(|(a, b, c)| format!("({a}|string).replace({b}|string, {c}|string)")),
+            1 => (lv(d - 1), inner.clone()).prop_map(|(l, j)| format!("({j}|string).join({l}|map('string'))")),
+            1 => (inner.clone(), inner.clone()).prop_map(|(a, b)| format!("({a}|string).split({b}|string)|join({b})")),
+            1 => (inner.clone(), inner.clone()).prop_map(|(a, b)| format!("('{{}}<{{}}').format({a}, {b})")),
         ]
         .boxed()
     }
